@@ -34,6 +34,7 @@ fn exec(w: usize, n: usize, prefix: &[usize]) -> (Exec<Vec<usize>>, Vec<usize>) 
             v
         })),
         monitor: None,
+        step_log: None,
     };
     let s2 = shared.clone();
     let x = sched::run(cfg, move |_ctl| {
